@@ -2,6 +2,9 @@ import Holpy.C10.Model
 import Holpy.C10.PolyModel
 import Holpy.C10.ProofsNatPoly
 import Holpy.C10.ProofsNatClosureNorm
+import Holpy.C10.ProofsNatInj
+import Holpy.C10.ProofsPolyUnit
+import Holpy.C10.ProofsPolySem
 /-
 C10 — the nat Conv normaliser `data.nat.norm_full` (what `nat_norm` uses) against the polynomial
 model.  Fragment: atoms, numerals, Suc, +, * (truncated subtraction, powers, applications are atoms
@@ -26,22 +29,47 @@ theorem norm_full_poly_invariant (one : Nat) (t : NExp) :
 example : toPoly (emb (norm 2 (.mul (.add (.atom 0 1) (.atom 1 1)) (.add (.atom 0 1) (.atom 1 1)))))
     = [([(0, 2)], 1), ([(1, 2)], 1), ([(0, 1), (1, 1)], 2)] := by decide
 
-/-- Two terms with the same `norm_full` normal form have the same polynomial (so `nat_norm` never
-proves an equation between different polynomials, independently of the kernel check).
-PARTIAL: the converse -- same polynomial ⇒ same normal form, i.e. canonicity of `norm_full` -- is
-NOT proved.  With `norm_nf_closed` (the result always has the normal-form shape) what remains is
-INJECTIVITY: two normal-form trees with the same polynomial are the same tree.  Plan: the
-(body, coefficient) list of a normal-form sum is strictly sorted for the body order `fastCmp` (which
-is antisymmetric and `eq` only on identical bodies: `fastCmp_swap`, `fastCmp_eq`; transitivity is still
-to be shown), hence `insertAdd`-canonical, so `canon_ext` of the `collect_pairs` theory applies once
-bodies are put in bijection with the monomials of `toPoly`.  Until then canonicity of `norm_full` is
-checked on the implementation against the independent evaluator every run. -/
-theorem norm_full_eq_poly_partial (one : Nat) (a b : NExp) (h : norm one a = norm one b) :
-    toPoly (emb a) = toPoly (emb b) := by
-  rw [← norm_full_poly_invariant one a, ← norm_full_poly_invariant one b, h]
+/-- Canonicity of `norm_full` on the fragment {atoms, numerals, Suc, +, *} (truncated subtraction,
+powers, applications are atoms): two terms have the IDENTICAL normal form exactly when they have the
+same polynomial (`convert_to_poly` list).  Hypothesis (decidable, checked by the driver's `wfs` op on
+every generated input): atoms are determined by their rank -- every atom is the table entry
+`atom i (sh i)`. -/
+theorem norm_full_iff_poly (one : Nat) (sh : Nat → Shape) (a b : NExp) (wa : wfS sh a = true)
+    (wb : wfS sh b = true) : norm one a = norm one b ↔ toPoly (emb a) = toPoly (emb b) := by
+  constructor
+  · intro h
+    rw [← norm_full_poly_invariant one a, ← norm_full_poly_invariant one b, h]
+  · exact norm_eq_of_toPoly_eq wa wb
 
-example : toPoly (emb (.add (.atom 0 1) (.suc (.atom 1 1)))) = toPoly (emb (.add (.suc (.atom 1 1)) (.atom 0 1))) :=
-  norm_full_eq_poly_partial 2 _ _ (by decide)
+example : norm 2 (.mul (.add (.atom 0 1) (.atom 1 1)) (.add (.atom 0 1) (.atom 1 1)))
+    = norm 2 (.add (.add (.mul (.atom 0 1) (.atom 0 1)) (.mul (.num 2) (.mul (.atom 1 1) (.atom 0 1))))
+        (.mul (.atom 1 1) (.atom 1 1))) :=
+  (norm_full_iff_poly 2 (fun _ => 1) _ _ (by decide) (by decide)).2 (by decide)
+
+/-- "Expressions over naturals that are equal as polynomials receive identical normal forms":
+terms related by the (semi)ring-axiom congruence get the identical `norm_full` normal form. -/
+theorem norm_canonical (one : Nat) (sh : Nat → Shape) (a b : NExp) (wa : wfS sh a = true)
+    (wb : wfS sh b = true) (h : RingEq (emb a) (emb b)) : norm one a = norm one b :=
+  (norm_full_iff_poly one sh a b wa wb).2 (toPoly_ringEq h)
+
+example : norm 2 (.mul (.atom 0 1) (.add (.atom 1 1) (.num 2)))
+    = norm 2 (.add (.mul (.atom 0 1) (.atom 1 1)) (.mul (.atom 0 1) (.num 2))) :=
+  norm_canonical 2 (fun _ => 1) _ _ (by decide) (by decide) (.distrib _ _ _)
+
+/-- The semantic form: terms with the same value under every integer valuation of the atoms get the
+identical normal form (and conversely). -/
+theorem norm_canonical_semantic (one : Nat) (sh : Nat → Shape) (a b : NExp) (wa : wfS sh a = true)
+    (wb : wfS sh b = true) : norm one a = norm one b ↔ ∀ ρ : Nat → Int, evalZ ρ a = evalZ ρ b := by
+  rw [norm_full_iff_poly one sh a b wa wb]
+  constructor
+  · intro h ρ
+    rw [← evalE_emb, ← evalE_emb, ← evalPoly_toPoly, ← evalPoly_toPoly, h]
+  · intro h
+    exact toPoly_eq_of_eval_eq _ _ (fun ρ => by rw [evalE_emb, evalE_emb]; exact h ρ)
+
+example : norm 2 (.suc (.add (.atom 0 1) (.suc (.atom 1 1)))) = norm 2 (.add (.add (.atom 1 1) (.atom 0 1)) (.num 2)) :=
+  (norm_canonical_semantic 2 (fun _ => 1) _ _ (by decide) (by decide)).2
+    (fun ρ => by simp only [evalZ]; push_cast; ring)
 
 /-- Closure: whatever the input, the result of `norm_full` has the normal-form shape `isNF` (the
 operations `norm_add_monomial`, `norm_add_polynomial`, `norm_mult_atom`, `norm_mult_monomial`,
